@@ -20,4 +20,5 @@ for name in "$@"; do
   (cd /verif && git checkout -- evidence 2>/dev/null; true)
   echo "done $name"
 done
+(cd /verif && ./check --setup >/dev/null 2>&1)   # leave coq/Gen regenerated from the restored /repo
 echo MATRIXDONE
